@@ -53,7 +53,7 @@ func init() {
 			inflight = f
 		}
 	}
-	debug.SetMaxStack(512 << 20)
+	debug.SetMaxStack(192 << 20)
 }
 
 // Inflight records the case about to be executed, so that the driver can
